@@ -92,7 +92,7 @@ def runStreamSize (t : String) (len : Nat) : String :=
 two directions are independent in the model (separate sockets' worth of answers), and a reader that finds
 the connection's state locked by a sender waits — the lock only delays its loop.  What the reader's loop
 delivers from the three messages waiting in its socket: -/
-def runStreamDuplex (t : String) : String :=
+def runStreamDuplex (t : String) (stall : Nat) : String :=
   let small : List Bytes := [[0, 0], [0, 1], [0, 2]]
   let backOk : Bool :=
     if t = "W" then
@@ -109,11 +109,23 @@ def runStreamDuplex (t : String) : String :=
       let f := session tcpInputBufferSize (fun (_ : Unit) ch => some ((), [ch])) { st := () }
         [{ arrived := wire, sched := drainSched wire.length tcpInputBufferSize }]
       f.outs.flatten == wire
-  s!"back={if backOk then "complete" else "incomplete"} forward=complete"
+  -- the reader's loop does not wait for anything the stalled send holds (no lock is shared between the
+  -- directions of Tcp / FramedTcp; registering another resource takes the registry lock only briefly)
+  let timely := if t != "W" && stall ≥ 2500 then "true" else "n/a"
+  s!"back={if backOk then "complete" else "incomplete"} forward=complete timely={timely}"
 
 def runStream (ws : List String) : String :=
   match ws with
-  | ["duplex", t, _, _] => runStreamDuplex t
+  | ["badka", t, _] =>
+    -- a keepalive setting the OS rejects changes nothing in the model: `pending` answers Ready and the
+    -- connection is the same abstract socket; five messages (sizes 0, 127, 128, 16384, 5) through the send
+    -- loop and the receive loop
+    let ms : List Bytes := [0, 127, 128, 16384, 5].map fun n => List.replicate n 7
+    let r := if t = "F" then runStreamE2E "F" "-" ms else runStreamE2E "T" "-" (ms.filter (· ≠ []))
+    if r.startsWith "model:" then r else "delivered=all"
+  | ["duplex", t, _, stall] => match stall.toNat? with
+    | some st => runStreamDuplex t st
+    | none => "bad-case"
   | ["size", t, _, len] => match len.toNat? with
     | some n => runStreamSize t n
     | none => "bad-case"
